@@ -918,15 +918,26 @@ def build(chk: Check) -> None:
     chk.struct("O1.installed_exactly_on_classes_with_non_sympy_fields", set(installers) == {c for c in decorated if K.nonsympy_fields(c)},
                K.DEC + "_implement_new_method", witness=[c.__name__ for c in installers],
                replay=lambda m: {"reproduced": False})
+    def guarded_e3(fn, pre, function, search, *args):
+        """Build one group of E3 obligations; if building the SPEC itself fails on the code's new shape (an abstraction with another
+        arity, an opaque value where a tuple is expected, ...), that is 'outside the supported subset', never a crash or an alarm."""
+        have = {o.name for o in chk.obligations}
+        try:
+            fn(chk, *args)
+        except K.E3_ERRORS as e:
+            if f"{pre}.in_supported_subset" in {o.name for o in chk.obligations} - have:
+                pre = pre + ".spec"
+            K.left_subset(chk, pre, function, e, search, [])
+
     for c in installers:
         if "_xreplace" in c.__dict__:
-            e3_xreplace(chk, c)
+            guarded_e3(e3_xreplace, f"O1.xreplace[{c.__name__}]", F_XR, lambda m, c=c: search_law(c, "xreplace"), c)
         if "_eval_subs" in c.__dict__:
-            e3_subs(chk, c)
+            guarded_e3(e3_subs, f"O2.subs[{c.__name__}]", F_SUBS, lambda m, c=c: search_law(c, "subs"), c)
     for c in decorated:
-        e3_hashable(chk, c)
-        e3_constructor(chk, c)
-    e3_doit_and_assumptions(chk, decorated)
+        guarded_e3(e3_hashable, f"O3.hashable_content[{c.__name__}]", F_HC, lambda m, c=c: eq_instances_search(c), c)
+        guarded_e3(e3_constructor, f"O4.constructor[{c.__name__}]", F_NEW, lambda m, c=c: rebuild_search(c), c)
+    guarded_e3(e3_doit_and_assumptions, "O5.doit_and_assumptions", F_DOIT, lambda m: {"reproduced": False}, decorated)
     # attribute values ampform uses: pairwise distinct values have distinct images (instance of A-himg-inj)
     used = [None, "q^2", R"\rho", "N", 0, 1] + [c for c in decorated if K.nonsympy_fields(c)][:6]
 
